@@ -260,6 +260,9 @@ def rand_history(rnd, n, max_len=None, ord_ok=False):
     """History from a seeded PRNG (used where thousands of histories per case are wanted)."""
     max_len = max_len if max_len is not None else min(2 * n + 4, 24)
     args = sorted({0, 1, 2, max(0, n // 2), max(0, n - 1), n, n + 1, n + 5})
+    from ..strategies import HUGE_NTH
+    if rnd.random() < 0.25:
+        args = args + [rnd.choice(HUGE_NTH), rnd.choice(HUGE_NTH)]     # usize arguments far beyond any length
     ops = []
     for _ in range(rnd.randint(0, max_len)):
         x = rnd.random()
